@@ -35,9 +35,28 @@ func (c *Config) Pick(q, t int) int {
 	return q
 }
 
+// Base is the build flavour without the "#variant" suffix ("race#2" runs the race binary again in a
+// fresh process with a different process-level configuration).
+func (c *Config) Base() string { return BaseFlavour(c.Flavour) }
+
+// Variant is the suffix after '#', or "".
+func (c *Config) Variant() string {
+	if i := strings.IndexByte(c.Flavour, '#'); i >= 0 {
+		return c.Flavour[i+1:]
+	}
+	return ""
+}
+
+func BaseFlavour(f string) string {
+	if i := strings.IndexByte(f, '#'); i >= 0 {
+		return f[:i]
+	}
+	return f
+}
+
 // Slow reports whether the flavour is an instrumented (several times slower) build.
 func (c *Config) Slow() bool {
-	switch c.Flavour {
+	switch c.Base() {
 	case "race", "asan", "noopt", "nooptl", "debug":
 		return true
 	}
@@ -123,6 +142,19 @@ func newW(id int, cfg *Config) *W {
 		extra:     map[string]int64{},
 	}
 }
+
+// NewScratchW returns a monitor context whose observations are discarded by the caller; drivers use
+// it to run another property's workload only for its side effects on shared state.
+func NewScratchW(cfg *Config) *W { return newW(-1, cfg) }
+
+// Violations returns what a scratch context recorded.
+func (w *W) Violations() []Violation { return w.viols }
+
+// Evals returns the number of evaluations counted so far.
+func (w *W) Evals() int64 { return w.evals }
+
+// RunScratch executes one case of a family on a scratch context (panics propagate to the caller's recover).
+func (w *W) RunScratch(f *Family, idx int) { w.runCase(f, idx) }
 
 // Eval counts n oracle-compared call/return events.
 func (w *W) Eval(n int64) { w.evals += n }
@@ -258,6 +290,14 @@ func panicOrigin(stack string) string {
 		}
 	}
 	return first
+}
+
+// PanicOrigin is exported for drivers that recover in their own goroutines.
+func PanicOrigin(stack string) string { return panicOrigin(stack) }
+
+// IsLibraryFrame reports whether a frame description lies in the library under test.
+func IsLibraryFrame(origin string) bool {
+	return strings.Contains(origin, "github.com/openacid/low")
 }
 
 func trimStack(st string) string {
